@@ -5,6 +5,9 @@
 //! `debug::Logger`; the returned breakpoints and every logged candidate line are sent to the
 //! Lean driver, which decides the property with the proved-optimal reference (`verdict=`) and
 //! re-rates every candidate line (`cand=`, the tie between the spec's badness/demerits and the code).
+//! The driver also runs `C04.algo`, the Lean transcription of the active-list algorithm about which
+//! `algo_sound` / `algo_optimal` are proved, on the same instance: its break list must be exactly the
+//! real one (`algo=`, stream `algo`, `Kind::ImplVsModel`).
 
 use boxworks::ds;
 use boxworks_knuthplass as kp;
@@ -178,6 +181,8 @@ struct Log {
     last_elem: i64,
     /// a L pf b bad pen dem art
     cands: Vec<[i64; 8]>,
+    /// every `log_new_active_node`, in order: elem, line, fitness class, total demerits, hyphenated, previous elem
+    trace: Vec<[i64; 6]>,
     inconsistent: Option<String>,
 }
 impl kp::debug::Logger for Log {
@@ -192,6 +197,17 @@ impl kp::debug::Logger for Log {
     fn log_new_active_node(&mut self, an: kp::debug::NewActiveNode) {
         if an.node_index != self.nodes.len() {
             self.inconsistent = Some(format!("node index {} out of sequence", an.node_index));
+        }
+        match self.nodes.get(an.previous_node_index) {
+            Some(&(prev_elem, _, _)) => self.trace.push([
+                self.last_elem,
+                an.line_number as i64,
+                an.fitness_class as i64,
+                an.total_demerits as i64,
+                an.hyphenated as i64,
+                prev_elem,
+            ]),
+            None => self.inconsistent = Some(format!("new active node refers to unknown node {}", an.previous_node_index)),
         }
         self.nodes.push((self.last_elem, an.line_number as i64, an.fitness_class as i64));
     }
@@ -568,6 +584,63 @@ impl Property for C04 {
         if let Some(reason) = verdict.strip_prefix("bad:") {
             let kind = if reason == "model-inconsistent" { Kind::ModelVsSpec } else { Kind::ImplVsSpec };
             out.fail(kind, "verdict", format!("line breaking: {reason}"), format!("result: {res:?}\nreply: {reply}"));
+        }
+        // stream `algo`: the Lean transcription of the active-list algorithm (Model/C04Algo.lean) must
+        // return exactly the break list the real code returned. Not compared where the code's i32
+        // arithmetic may overflow (the model works in unbounded integers).
+        let algo = field("algo");
+        if algo.is_empty() {
+            panic!("driver reply has no algo field: {reply}");
+        }
+        if verdict == "skip:demerits-may-overflow" || algo.starts_with("skip:") {
+            out.tag("algo:not-compared");
+        } else {
+            let real = match &res {
+                None => "none".to_string(),
+                Some(bs) => format!("[{}]", bs.iter().map(|b| b.to_string()).collect::<Vec<_>>().join(",")),
+            };
+            if real == algo {
+                out.tag("algo:equal");
+            } else {
+                out.fail(
+                    Kind::ImplVsModel,
+                    "algo",
+                    "algo: break list differs",
+                    format!("real break_line_single_attempt: {real}\nmodel C04.algo: {algo}\nreply: {reply}"),
+                );
+            }
+        }
+        // stream `trace`: the active nodes the real run creates (debug::Logger::log_new_active_node), in
+        // order, with line number, fitness class, total demerits, hyphenated flag and predecessor, must
+        // be exactly the nodes the transcription creates — a step-by-step tie, not only the final answer.
+        let trace = field("trace");
+        if verdict == "skip:demerits-may-overflow" || trace.starts_with("skip:") || trace.is_empty() {
+            out.tag("trace:not-compared");
+        } else {
+            let real = if log.trace.is_empty() {
+                "-".to_string()
+            } else {
+                log.trace.iter().map(|t| format!("{}:{}:{}:{}:{}:{}", t[0], t[1], t[2], t[3], t[4], t[5])).collect::<Vec<_>>().join(",")
+            };
+            if real == trace {
+                out.tag(format!("trace:equal nodes={}", match log.trace.len() { 0 => "0", 1..=4 => "1-4", 5..=19 => "5-19", 20..=99 => "20-99", _ => "100+" }));
+            } else {
+                let k = real.split(',').zip(trace.split(',')).take_while(|(a, b)| a == b).count();
+                out.fail(
+                    Kind::ImplVsModel,
+                    "trace",
+                    "algo: created active nodes differ",
+                    format!("first difference at node #{k} (elem:line:fitness:total:hyphenated:previous_elem)\nreal : {real}\nmodel: {trace}"),
+                );
+            }
+        }
+        // sanity stream `thm`: where the hypotheses of `algo_optimal_dec` / `algo_loose` hold, the model's
+        // answer must be what the theorem says (computed by the driver from the reference vector).
+        match field("thm").as_str() {
+            "ok:optimal" => out.tag("thm:algo_optimal hypotheses hold"),
+            "ok:loose" => out.tag("thm:algo_loose hypotheses hold"),
+            "n/a" => out.tag("thm:n/a (force, non-monotone or unbounded)"),
+            other => out.fail(Kind::ModelVsSpec, "thm", format!("theorem contradicted by the model ({other})"), format!("reply: {reply}")),
         }
         if let Some(what) = cand.strip_prefix("bad:") {
             let mut parts = what.splitn(2, ':');
